@@ -20,7 +20,8 @@ from ..report import AnalysisError, Ob
 COV = "inference/gp/covariance.py"
 MEAN = "inference/gp/mean.py"
 FLOORS = {"builder-vs-pairwise": 4, "value-sibling": 4, "gradient-is-derivative": 9, "changepoint-siblings": 4,
-          "composition-order": 4, "mean-sibling": 3, "mean-gradient": 3, "composite-structure": 3}
+          "composition-order": 4, "mean-sibling": 3, "mean-gradient": 3, "composite-structure": 3,
+          "changepoint-shared-inplace": 3}
 
 SCALARS = {"theta[0]", "theta[1]", "theta[1:]", "theta[2:]", "theta"}
 KERNELS = ("WhiteNoise", "SquaredExponential", "RationalQuadratic", "HeteroscedasticNoise")
@@ -203,8 +204,71 @@ def run(prog, tier):
     return obs, FLOORS, meta
 
 
+def shared_inplace(fn):
+    """Two containers that may hold the same array object, one of which is updated in place element-wise:
+    the update is then visible through the other container as well."""
+    alias, lists, inplace = {}, {}, {}
+
+    def origins(e):
+        if isinstance(e, ast.Name):
+            return {e.id}
+        if isinstance(e, ast.IfExp):
+            return origins(e.body) | origins(e.orelse)
+        return set()
+    for n in ast.walk(fn):
+        if isinstance(n, ast.Assign) and len(n.targets) == 1:
+            tg, v = n.targets[0], n.value
+            pairs = [(tg, v)]
+            if isinstance(tg, ast.Tuple) and isinstance(v, ast.Tuple) and len(tg.elts) == len(v.elts):
+                pairs = list(zip(tg.elts, v.elts))
+            for a, b in pairs:
+                if isinstance(a, ast.Name):
+                    if isinstance(b, ast.List):
+                        for e in b.elts:
+                            lists.setdefault(a.id, set()).update(origins(e))
+                    else:
+                        o = origins(b)
+                        if o:
+                            alias.setdefault(a.id, set()).update(o)
+        elif isinstance(n, ast.Call) and isinstance(n.func, ast.Attribute) and n.func.attr == "append" \
+                and isinstance(n.func.value, ast.Name) and n.args:
+            lists.setdefault(n.func.value.id, set()).update(origins(n.args[0]))
+        elif isinstance(n, ast.AugAssign) and isinstance(n.target, ast.Subscript) and isinstance(n.target.value, ast.Name):
+            inplace[n.target.value.id] = n
+
+    def close(names):
+        out, todo = set(), list(names)
+        while todo:
+            x = todo.pop()
+            if x in out:
+                continue
+            out.add(x)
+            todo.extend(alias.get(x, ()))
+        return out
+    closed = {k: close(v) for k, v in lists.items()}
+    hits = []
+    ks = sorted(closed)
+    for i, a in enumerate(ks):
+        for b in ks[i + 1:]:
+            common = closed[a] & closed[b]
+            if common and (a in inplace or b in inplace):
+                st = inplace.get(a) or inplace.get(b)
+                hits.append((st.lineno, f"lists `{a}` and `{b}` may hold the same array ({sorted(common)}) and `{U(st)}` updates an "
+                                        f"element in place"))
+    return hits
+
+
 def _changepoint(prog, cp):
     out = []
+    # aliasing hazard first: it is decidable whatever shape the recurrence has
+    for mname in ("__call__", "build_covariance", "covariance_and_gradients"):
+        fn = cp.methods.get(mname)
+        hits = shared_inplace(fn) if fn is not None else []
+        out.append(struct_ob("changepoint-shared-inplace", qual(cp, fn), not hits,
+                             "; ".join(h[1] for h in hits) + " - the in-place product is then applied to both kernels' weights "
+                             "when the two point sets are the same object", COV, hits[0][0] if hits else fn.lineno))
+    if any(not o.ok for o in out):
+        return out
     forms = {}
     for mname in ("__call__", "build_covariance", "covariance_and_gradients"):
         fn = cp.methods.get(mname)
